@@ -138,6 +138,16 @@ def _interval(ctx, fi, e: ast.AST, acute_ok: bool) -> Optional[Tuple[float, floa
         return (0.0, PI / 2, "acute")
     if isinstance(e, ast.Call) and isinstance(e.func, ast.Attribute) and e.func.attr == "angle" and len(e.args) == 1:
         return (0.0, PI, "raw")
+    if isinstance(e, ast.Call) and txt(e.func) in ("math.acos", "acos") and len(e.args) == 1:
+        a = e.args[0]
+        nonneg = isinstance(a, ast.Call) and txt(a.func) == "abs" or (
+            isinstance(a, ast.BinOp) and isinstance(a.op, ast.Div) and isinstance(a.left, ast.Call) and txt(a.left.func) == "abs")
+        return (0.0, PI / 2 if nonneg else PI, "direct")
+    if isinstance(e, ast.Call) and txt(e.func) in ("math.asin", "asin") and len(e.args) == 1:
+        a = e.args[0]
+        nonneg = isinstance(a, ast.Call) and txt(a.func) == "abs" or (
+            isinstance(a, ast.BinOp) and isinstance(a.op, ast.Div) and isinstance(a.left, ast.Call) and txt(a.left.func) == "abs")
+        return (0.0 if nonneg else -PI / 2, PI / 2, "direct")
     if isinstance(e, ast.Name):
         from ..astutil import assigned_names
         defs = assigned_names(fi.node).get(e.id, [])
@@ -211,6 +221,13 @@ def r112_r113_angle(ctx, res, fi, direct):
                  and c.func.attr == "angle"]
         okv = any((_vec_of(c.func.value, a, ta) and _vec_of(c.args[0], b, tb)) or
                   (_vec_of(c.func.value, b, tb) and _vec_of(c.args[0], a, ta)) for c in calls if len(c.args) == 1)
+        if not calls:
+            # a direct formula: it must mention the direction vectors of both operands
+            full = _resolve_local(fi, r.value)
+            mentioned = {txt(x) for x in ast.walk(full) if isinstance(x, (ast.Attribute, ast.Name))}
+            va = a if KIND[ta][0] is None else "%s.%s" % (a, KIND[ta][0])
+            vb = b if KIND[tb][0] is None else "%s.%s" % (b, KIND[tb][0])
+            okv = va in mentioned and vb in mentioned
         res.ob("R11.3", fi.where(r), lab + " operands", okv, "angle of the two operands' direction vectors")
         if not okv:
             res.violation("R11.3", fi, r, "%s is not computed from the direction vectors of both operands" % lab,
